@@ -94,15 +94,18 @@ Proof.
            ++ now rewrite EM.
            ++ reflexivity.
         -- simpl. now rewrite andb_true_r.
+        -- repeat split.
         -- intros SY b m. simpl. rewrite mget_mdel. intros E. neq b a; [congruence|]. now apply SY.
       * destruct (N.eqb_spec h e); [congruence|]. intros X. inversion X; subst; clear X. split4.
         -- intros b. neq b a; [assumption|reflexivity].
         -- simpl. now rewrite andb_false_r.
+        -- apply same_rest_refl.
         -- auto.
     + assert (GL : get_list s a = []) by (unfold get_list; now rewrite EM, EH).
       rewrite GL. simpl. intros X. inversion X; subst; clear X. split4.
       * intros b. neq b a; [assumption|reflexivity].
       * now rewrite andb_true_r.
+      * apply same_rest_refl.
       * auto.
 Qed.
 
@@ -114,7 +117,7 @@ Lemma del_addrs_spec h addrs : forall s f s' f',
   f' = (f && forallb (fun a => is_nil (remove_first h (get_list s a))) addrs) /\
   same_rest s s' /\ (Sync s -> Sync s').
 Proof.
-  induction addrs as [|a r IH]; intros s f s' f' ND; simpl.
+  induction addrs as [|a r IH]; intros s f s' f' ND; cbn [del_addrs forallb].
   - intros X. inversion X; subst. split4; auto using same_rest_refl. now rewrite andb_true_r.
   - destruct (del_addr h a (s, f)) as [s1 f1] eqn:E1. apply del_addr_spec in E1 as (L1 & F1 & R1 & S1).
     intros E2. apply IH in E2 as (L2 & F2 & R2 & S2).
@@ -124,7 +127,7 @@ Proof.
         -- rewrite rf_idem by apply ND. destruct (existsb (N.eqb a) r); reflexivity.
         -- reflexivity.
       * rewrite F2, F1. rewrite <- andb_assoc. f_equal. f_equal.
-        apply forallb_ext. intros a'. rewrite (L1 a'). neq a' a; [|reflexivity].
+        apply forallb_ext'. intros a'. rewrite (L1 a'). neq a' a; [|reflexivity].
         now rewrite rf_idem by apply ND.
       * eapply same_rest_trans; eauto.
       * auto.
@@ -150,34 +153,45 @@ Proof.
   destruct (del_addrs h (hi_addrs hi) (s, true)) as [s1 f1] eqn:E1.
   apply del_addrs_spec in E1 as (L1 & F1 & (RI & RX & RR & RL & RP & RQ & RG) & S1); [|assumption].
   intros X. inversion X; subst; clear X.
-  assert (GL : forall t b, get_list (gmove h Main Dead t) b = get_list t b).
-  { intros t b. unfold gmove. destruct (mget h (gst t)) as [g|]; [destruct (hst_eqb g Main)|]; reflexivity. }
   assert (FG : forall t, infos (gmove h Main Dead t) = infos t /\ pvpn (gmove h Main Dead t) = pvpn t /\
                          pidx (gmove h Main Dead t) = pidx t /\ idx (gmove h Main Dead t) = idx t /\
                          ridx (gmove h Main Dead t) = ridx t /\ rel (gmove h Main Dead t) = rel t /\
                          hosts (gmove h Main Dead t) = hosts t /\ more (gmove h Main Dead t) = more t).
   { intros t. unfold gmove. destruct (mget h (gst t)) as [g|]; [destruct (hst_eqb g Main)|]; repeat split. }
-  set (t := set_rel _ _).
-  destruct (FG t) as (G1 & G2 & G3 & G4 & G5 & G6 & G7 & G8).
-  assert (DR : forall u, get_list (del_ridx h hi u) = get_list u /\ hosts (del_ridx h hi u) = hosts u /\
+  assert (DR : forall u, hosts (del_ridx h hi u) = hosts u /\
                          more (del_ridx h hi u) = more u /\ infos (del_ridx h hi u) = infos u /\
                          pvpn (del_ridx h hi u) = pvpn u /\ pidx (del_ridx h hi u) = pidx u /\
                          idx (del_ridx h hi u) = idx u /\ rel (del_ridx h hi u) = rel u /\
                          gst (del_ridx h hi u) = gst u).
   { intros u. unfold del_ridx. destruct (is_some_id _ _); repeat split. }
-  destruct (DR s1) as (D1 & D2 & D3 & D4 & D5 & D6 & D7 & D8 & D9).
-  repeat split.
-  - intros b. rewrite GL. unfold t, get_list. simpl. rewrite D2, D3. apply L1.
-  - simpl in F1. exact F1.
-  - intros SY a l. rewrite G8, G7. unfold t. simpl. rewrite D2, D3. now apply S1.
+  assert (DI : forall u, hosts (del_idx h hi u) = hosts u /\
+                         more (del_idx h hi u) = more u /\ infos (del_idx h hi u) = infos u /\
+                         pvpn (del_idx h hi u) = pvpn u /\ pidx (del_idx h hi u) = pidx u /\
+                         ridx (del_idx h hi u) = ridx u /\ rel (del_idx h hi u) = rel u /\
+                         gst (del_idx h hi u) = gst u).
+  { intros u. unfold del_idx. destruct (is_some_id _ _); repeat split. }
+  set (s2 := del_ridx h hi s1). set (s3 := del_idx h hi s2).
+  set (t := set_rel s3 _).
+  destruct (FG t) as (G1 & G2 & G3 & G4 & G5 & G6 & G7 & G8).
+  destruct (DR s1) as (D2 & D3 & D4 & D5 & D6 & D7 & D8 & D9).
+  destruct (DI s2) as (I2 & I3 & I4 & I5 & I6 & I7 & I8 & I9).
+  fold s2 in D2, D3, D4, D5, D6, D7, D8, D9. fold s3 in I2, I3, I4, I5, I6, I7, I8, I9.
+  assert (HT : hosts t = hosts s1) by (unfold t; simpl; congruence).
+  assert (MT : more t = more s1) by (unfold t; simpl; congruence).
+  refine (conj _ (conj _ (conj _ (conj _ (conj _ (conj _ (conj _ (conj _ (conj _ _))))))))).
+  - intros b. rewrite <- L1. unfold get_list. now rewrite G8, G7, HT, MT.
+  - reflexivity.
+  - intros SY a l. rewrite G8, G7, HT, MT. now apply S1.
   - rewrite G1. unfold t. simpl. congruence.
   - rewrite G2. unfold t. simpl. congruence.
   - rewrite G3. unfold t. simpl. congruence.
-  - rewrite G4. unfold t. simpl. congruence.
-  - rewrite G5. unfold t. simpl. unfold del_ridx. rewrite RR. destruct (is_some_id _ _); simpl; congruence.
+  - rewrite G4. unfold t. simpl. unfold s3, del_idx. rewrite D7, RX. destruct (is_some_id _ _); simpl; congruence.
+  - rewrite G5. unfold t. simpl. rewrite I7. unfold s2, del_ridx. rewrite RR. destruct (is_some_id _ _); simpl; congruence.
   - rewrite G6. unfold t. simpl. congruence.
-  - unfold gmove. unfold t at 1. simpl. rewrite D9, RG.
-    destruct (mget h (gst s)) as [g|]; [destruct (hst_eqb g Main)|]; unfold t; simpl; congruence.
+  - assert (GT : gst t = gst s) by (unfold t; simpl; congruence).
+    unfold gmove. rewrite GT.
+    destruct (mget h (gst s)) as [g|]; [destruct (hst_eqb g Main)|]; try assumption.
+    unfold gset, set_gst; cbn [gst]. now rewrite GT.
 Qed.
 
 (* ---------- unlockedInnerAddHostInfo ------------------------------------------------------------ *)
